@@ -715,6 +715,9 @@ fn ids_str(v: &[ObjectId]) -> String {
     if v.len() > 24 {
         format!("{} ids, first {:?} last {:?}", v.len(), &v[..3], &v[v.len() - 3..])
     } else {
+        if v.iter().any(|i| i.1 != 0) {
+            return format!("{:?}", v);
+        }
         format!("{:?}", v.iter().map(|i| i.0).collect::<Vec<_>>())
     }
 }
@@ -810,7 +813,9 @@ fn check_forms(doc: &Document, stepped: &[ObjectId], exact: bool, collecting: bo
     }
     stage(FORMS[1]);
     // on very long lists size_hint() (linear in the pending kids) is asked at the ends and at every 97th step
-    let ask = |i: usize| n <= 2000 || i < 3 || i + 3 >= n || i % 97 == 0;
+    // (beyond 30,000 pages: every 4099th step)
+    let stride = if n > 30_000 { 4099 } else { 97 };
+    let ask = |i: usize| n <= 2000 || i < 3 || i + 3 >= n || i % stride == 0;
     util::guard(|| -> Result<(), String> {
         let mut it = doc.page_iter();
         for i in 0..=n {
@@ -944,6 +949,9 @@ fn doc_of_case(case: &Value) -> (Document, Option<Tree>) {
             }
             if let Some(m) = case["max_id"].as_u64() {
                 b.doc.max_id = m as u32;
+            }
+            if let Some(scheme) = case["numbering"].as_str() {
+                return (shared_number_doc(&b.doc, scheme), Some(t));
             }
             (b.doc, Some(t))
         }
@@ -1430,6 +1438,7 @@ fn explore_valid(run: &Run, b: &Bounds, max_calls: &AtomicU64, watch: &Watch) {
         let nv = n_variants(&opts);
         let (mut cases, mut nontrivial) = (0u64, Vec::<u64>::new());
         let mut stale = 0u64;
+        let mut shared = 0u64;
         for v in 0..nv {
             let t = Tree::from_parents(parent, variant(&opts, v));
             for rev in [false, true] {
@@ -1453,6 +1462,23 @@ fn explore_valid(run: &Run, b: &Bounds, max_calls: &AtomicU64, watch: &Watch) {
                 if let Err(e) = watch.guarded(&case, || check_valid_basic(&d, &want, max_calls)) {
                     run.fail(None, with_doc(case, &d), &format!("max_id = {}: {}", m, e), STALE_EXPECTED);
                 }
+                // the same document under numberings in which several objects share an object NUMBER
+                // and differ in generation only (every scheme: stepping + get_pages(); one of them,
+                // in rotation over the typings, through every form)
+                for (si, scheme) in SHARED_NUMBERINGS.iter().enumerate() {
+                    let d = shared_number_doc(&b.doc, scheme);
+                    let want_s: Vec<ObjectId> = want.iter().map(|p| shared_number_id(scheme, *p)).collect();
+                    let mut case = tree_case(&t, rev, None);
+                    case["numbering"] = json!(scheme);
+                    shared += 1;
+                    if t.has_intermediate() {
+                        nontrivial.push(vharness::cmp::digest_doc(&d));
+                    }
+                    let all_forms = (v + si) % SHARED_NUMBERINGS.len() == 0;
+                    if let Err(e) = watch.guarded(&case, || if all_forms { check_valid(&d, &want_s, max_calls) } else { check_valid_basic(&d, &want_s, max_calls) }) {
+                        run.fail(None, with_doc(case, &d), &format!("numbering {}: {}", scheme, e), SHARED_EXPECTED);
+                    }
+                }
                 if t.len() >= 6 && rev && want.len() >= 3 && t.kind.iter().filter(|k| **k == Kind::PagesInd).count() == 1 && t.has_intermediate() && v > nv / 2
                     && sampled.fetch_add(1, Ordering::Relaxed) < 2
                 {
@@ -1460,11 +1486,43 @@ fn explore_valid(run: &Run, b: &Bounds, max_calls: &AtomicU64, watch: &Watch) {
                 }
             }
         }
-        run.eval(cases * 2 + stale * 2);
+        run.eval(cases * 2 + stale * 2 + shared * 2);
         nontrivial.iter().for_each(|h| run.nontrivial_hash(*h));
         run.add("valid", cases);
         run.add("valid_with_stale_max_id", stale);
+        run.add("valid_with_shared_object_numbers", shared);
     });
+}
+
+/// Numberings of a document built by `build` (numbers 1..total, generation 0; j = number - 1) in
+/// which objects share an object NUMBER and differ in generation only - legal keys of the public
+/// `objects` map of an in-memory document:
+/// "one_number": every object is (20, j) - catalog, root, every Pages node, every page and every
+/// Kids array object share number 20;
+/// "pairs": (20 + j/2, j%2) - neighbours in number order share a number (ascending ids: catalog
+/// and root, then node 1 and node 2, ..);
+/// "pairs_odd": (20 + (j+1)/2, (j+1)%2) - the other pairing (ascending ids: root and its first
+/// kid, ..);
+/// "gen_high": (20 + j/3, [0, 1, 65535][j%3]) - triples, the third with the highest generation.
+const SHARED_NUMBERINGS: [&str; 4] = ["one_number", "pairs", "pairs_odd", "gen_high"];
+
+const SHARED_EXPECTED: &str = "an ObjectId is the pair (number, generation) and Document::objects is keyed by the pair: in an in-memory document (20, 0) and (20, 1) are two different objects, each of which may be a Pages node or a page of one well-formed tree. page_iter() = depth-first left-to-right Page leaves; get_pages() = that list numbered 1..n";
+
+fn shared_number_id(scheme: &str, id: ObjectId) -> ObjectId {
+    let j = id.0.saturating_sub(1);
+    match scheme {
+        "one_number" => (20, j as u16),
+        "pairs" => (20 + j / 2, (j % 2) as u16),
+        "pairs_odd" => (20 + (j + 1) / 2, ((j + 1) % 2) as u16),
+        "gen_high" => (20 + j / 3, [0u16, 1, 65535][(j % 3) as usize]),
+        _ => machinery("unknown shared-number numbering"),
+    }
+}
+
+fn shared_number_doc(doc: &Document, scheme: &str) -> Document {
+    let mut d = renumbered(doc, &|id| shared_number_id(scheme, id));
+    d.max_id = d.objects.keys().map(|k| k.0).max().unwrap_or(0);
+    d
 }
 
 /// Stale values of max_id for a document: 0, 1, highest number - 1, highest number + 100.
@@ -1568,6 +1626,97 @@ fn wide_tree(form: &str, width: usize, indirect: bool) -> Tree {
         _ => machinery("unknown wide form"),
     }
     Tree::from_parents(&parent, kind)
+}
+
+/// A complete tree: the root holds dims[0] kids, every node of level i holds dims[i] kids, the
+/// kids of the last level are pages. Nodes in preorder.
+fn level_tree(dims: &[usize], indirect: bool) -> Tree {
+    fn rec(me: usize, level: usize, dims: &[usize], pk: Kind, parent: &mut Vec<Option<usize>>, kind: &mut Vec<Kind>) {
+        for _ in 0..dims[level] {
+            parent.push(Some(me));
+            if level + 1 == dims.len() {
+                kind.push(Kind::Page);
+            } else {
+                kind.push(pk);
+                let id = parent.len() - 1;
+                rec(id, level + 1, dims, pk, parent, kind);
+            }
+        }
+    }
+    if dims.is_empty() || dims.len() > 8 {
+        machinery("level tree: 1..8 levels");
+    }
+    let pk = if indirect { Kind::PagesInd } else { Kind::Pages };
+    let mut parent: Vec<Option<usize>> = vec![None];
+    let mut kind = vec![pk];
+    rec(0, 0, dims, pk, &mut parent, &mut kind);
+    Tree::from_parents(&parent, kind)
+}
+
+fn dims_of(case: &Value) -> Vec<usize> {
+    case["dims"].as_array().map(|a| a.iter().map(|x| x.as_u64().unwrap_or(1) as usize).collect()).unwrap_or_default()
+}
+
+/// A failure text about a tree of tens of thousands of pages stays readable.
+fn clip(e: String) -> String {
+    if e.len() > 700 {
+        let mut cut = 700;
+        while !e.is_char_boundary(cut) {
+            cut -= 1;
+        }
+        format!("{} ... ({} characters)", &e[..cut], e.len())
+    } else {
+        e
+    }
+}
+
+const LEVELS_EXPECTED: &str = "a well-formed tree is enumerated completely however many nodes it has: page_iter() = all depth-first left-to-right Page leaves, get_pages() = that list numbered 1..n, count() = n, in every form";
+
+/// Well-formed trees with more than 2^16 nodes below the root (and flat ones around 2^16 kids):
+/// built once per case from the generator parameters, which are all the replay stores.
+fn explore_levels(run: &Run, max_calls: &AtomicU64, watch: &Watch) {
+    let mut dims: Vec<Vec<usize>> = vec![vec![70_000], vec![65_535], vec![65_536], vec![65_537], vec![280, 250], vec![250, 280], vec![41, 41, 41], vec![2, 3, 5, 7, 11, 31]];
+    if run.thorough {
+        dims.extend([vec![200_000], vec![131_073], vec![600, 400], vec![2, 70_000], vec![70_000, 1], vec![60, 60, 60], vec![17, 17, 17, 17], vec![4; 8]]);
+    }
+    let mut work = vec![];
+    for d in &dims {
+        for indirect in [false, true] {
+            for rev in [false, true] {
+                work.push((d.clone(), indirect, rev));
+            }
+        }
+    }
+    let sizes = Mutex::new(vec![]);
+    util::par_for(work.len(), |i| {
+        let (d, indirect, rev) = &work[i];
+        let t = level_tree(d, *indirect);
+        let b = build(&t, *rev);
+        let want = expected_pages(&t, &b);
+        let case = json!({"kind": "levels", "dims": d, "indirect": indirect, "rev": rev});
+        run.eval(2);
+        run.nontrivial(1);
+        run.add("level_trees", 1);
+        if !*indirect && !*rev {
+            sizes.lock().unwrap().push(json!({"dims": d, "nodes_below_root": t.len() - 1, "pages": want.len(), "objects": b.doc.objects.len()}));
+        }
+        if let Err(e) = watch.guarded(&case, || check_valid(&b.doc, &want, max_calls)) {
+            run.fail(None, case.clone(), &clip(e), LEVELS_EXPECTED);
+        }
+        // the same tree with max_id 0 (stepping + get_pages())
+        let mut b = b;
+        b.doc.max_id = 0;
+        let mut case = case.clone();
+        case["max_id"] = json!(0);
+        run.eval(2);
+        if let Err(e) = watch.guarded(&case, || check_valid_basic(&b.doc, &want, max_calls)) {
+            run.fail(None, case, &clip(format!("max_id = 0: {}", e)), LEVELS_EXPECTED);
+        }
+    });
+    let mut v = sizes.into_inner().unwrap();
+    v.sort_by_key(|x| x["objects"].as_u64());
+    run.set("level_tree_sizes", json!(v));
+    run.sample(json!({"kind": "levels", "dims": [41, 41, 41], "indirect": true, "rev": true}));
 }
 
 fn explore_wide(run: &Run, max_calls: &AtomicU64, watch: &Watch) {
@@ -3369,7 +3518,11 @@ fn replay(run: &Run, path: &std::path::Path) -> ! {
             let t = t.unwrap();
             if case["mutation"].is_null() {
                 let b = build(&t, case["rev"].as_bool().unwrap_or(false));
-                let want = expected_pages(&t, &b);
+                let mut want = expected_pages(&t, &b);
+                if let Some(scheme) = case["numbering"].as_str() {
+                    want = want.iter().map(|p| shared_number_id(scheme, *p)).collect();
+                    println!("numbering {}: objects {:?}", scheme, doc.objects.keys().collect::<Vec<_>>());
+                }
                 say("valid tree", check_valid(&doc, &want, &dummy).map(|_| format!("pages {}", ids_str(&want))));
             } else {
                 say("page_iter on malformed tree, every form", check_lenient_all(&doc, &dummy, !is_count_extreme(&case["mutation"])).map(|g| format!("terminates, yields {}", ids_str(&g))));
@@ -3382,6 +3535,16 @@ fn replay(run: &Run, path: &std::path::Path) -> ! {
                     say("get_pages on malformed tree", check_get_pages_lenient(&doc).map(|m| format!("{:?}", m)));
                 }
             }
+        }
+        Some("levels") => {
+            let t = level_tree(&dims_of(&case), case["indirect"].as_bool().unwrap_or(false));
+            let mut b = build(&t, case["rev"].as_bool().unwrap_or(false));
+            let want = expected_pages(&t, &b);
+            if let Some(m) = case["max_id"].as_u64() {
+                b.doc.max_id = m as u32;
+            }
+            println!("tree: {} nodes below the root, {} pages, {} objects in the document", t.len() - 1, want.len(), b.doc.objects.len());
+            say("level tree", check_valid(&b.doc, &want, &dummy).map(|_| format!("{} pages in depth-first order", want.len())).map_err(clip));
         }
         Some("wide") => {
             let t = wide_tree(case["form"].as_str().unwrap_or(""), case["width"].as_u64().unwrap_or(1) as usize, case["indirect"].as_bool().unwrap_or(false));
@@ -3499,6 +3662,13 @@ fn main() {
          (non-root) Pages node; distinct = counted once per document digest (two mutations that produce the same document count once). \
          Wide trees: 255, 256, 257, 1000 (thorough: + 1023, 1024, 1025, 4096, 20000) kids under the root - all pages / sqrt(w) Pages nodes sharing w pages, \
          each followed by a page / pages alternating with empty Pages nodes - x Kids direct/indirect x ids ascending/reversed. \
+         LEVEL TREES beyond 2^16 nodes (both tiers; built once from the generator parameters, which are all a replay stores): complete trees whose root holds d0 kids, every node of level i \
+         d_i kids, the last level pages - one node with 70,000 / 65,535 / 65,536 / 65,537 page kids; 280 x 250; 250 x 280; 41 x 41 x 41; 2 x 3 x 5 x 7 x 11 x 31 (thorough: + 200,000; 131,073; \
+         600 x 400; 2 x 70,000; 70,000 x 1; 60^3; 17^4; 4^8) x Kids direct/indirect x ids ascending/reversed - exact verdict through every form (size_hint() asked at every 4099th step), and \
+         once more under max_id 0. SHARED OBJECT NUMBERS: every tree of the valid family x ids ascending/reversed once more under four numberings of the in-memory document in which objects \
+         share an object NUMBER and differ in generation only - every object (catalog, root, Pages nodes, pages, Kids arrays) is (20, j); pairs (20+j/2, j%2) so that catalog and root / two \
+         siblings / a Pages node and its page share a number; the other pairing (root and its first kid share a number); triples with generations 0, 1, 65535 - exact verdict by stepping and \
+         get_pages(), one numbering (in rotation) through every form. \
          History: every ORDERED pair (A, B) of valid trees with <= {} nodes (x ids ascending/reversed) in 8 sequences on ONE Document value - enumerate A, \
          turn the document into B through the public fields (entry by entry: objects.remove / get_mut / insert, trailer.set; or by assigning objects and \
          trailer wholesale), enumerate again; only page_iter() before the edit; edit a clone of the enumerated document (and re-check the original); clone \
@@ -3557,6 +3727,8 @@ fn main() {
     run.assume("valid = every node typed, Kids arrays of references to tree nodes, at most 256 sibling lists pending at once (PAGE_TREE_DEPTH_LIMIT bounds the code's stack of pending sibling lists); beyond that and for malformed trees only termination within objects.len()+1 calls of next(), type safety of the yielded ids and absence of panics are demanded");
     run.assume("the collecting forms (collect, extend, get_pages) on a tree with an extreme /Count are executed only in child processes of this binary under RLIMIT_AS = 2 GiB; an abort, signal or non-zero exit of the child is the failing outcome");
     run.assume("/Count is correct in valid trees; the root of the tree is always a Pages node");
+    run.assume("Document::objects is a public map keyed by (number, generation): an in-memory document may hold (20, 0) and (20, 1) as two different objects (a file cannot - one in-use object per number - so these numberings exist in memory only), and a reference names exactly one of them. A well-formed page tree over such ids is inside the property's domain");
+    run.assume("the number of nodes of a well-formed tree is not bounded by the statement: trees with more than 65,536 nodes are enumerated completely (lopdf's own budget is objects.len() visited kids, which a well-formed tree never exhausts)");
     let max_calls = AtomicU64::new(0);
     let watch = Watch::new();
     std::thread::scope(|sc| {
@@ -3565,6 +3737,7 @@ fn main() {
         run.set("wall_after_valid_s", json!((run.elapsed() * 10.0).round() / 10.0));
         explore_chains(&run, &max_calls, &watch);
         explore_wide(&run, &max_calls, &watch);
+        explore_levels(&run, &max_calls, &watch);
         run.set("wall_after_chains_s", json!((run.elapsed() * 10.0).round() / 10.0));
         explore_malformed(&run, &b, &max_calls, &watch);
         run.set("wall_after_malformed_s", json!((run.elapsed() * 10.0).round() / 10.0));
